@@ -24,7 +24,7 @@ inductive V where
   deriving DecidableEq, Repr
 
 inductive Err where
-  | keyErr | valueErr | typeErr | fitKeyErr
+  | keyErr | valueErr | typeErr | fitKeyErr | fitDataErr
   deriving DecidableEq, Repr
 
 structure Pipe where
@@ -209,9 +209,23 @@ def ctorCheck (s : St) (fp : Settings) : Except Err Unit :=
   else match fp "params_initial", fp "model_key" with
     | some (.params m _), some (.tok mk) =>
         -- every parameter of the model must be in the initial parameters
-        if (paramNames ((mk.drop 2).toString)).all (fun n => (paramNames m).contains n) then .ok ()
+        if (paramNames ((mk.drop 2).toString)).all (fun n => (paramNames m).contains n) then
+          -- (raised by `fit()` after the constructor - the state left behind is the same) the plateau search
+          -- rejects every retract segment: `compute_emodulus_vs_mindelta` ends in an unconditional
+          -- FitDataError there
+          (if truthy (fp "optimal_fit_edelta") && fp "segment" ≠ some (.tok "0.0") then .error .fitDataErr
+           else .ok ())
         else .error .fitKeyErr
     | _, _ => .error .fitKeyErr
+
+/-- `IndentationFitter.fp` starts from FP_DEFAULT and receives the stored settings key by key in sorted
+order through `__setitem__`: with the plateau search on, a `range_x` whose upper bound equals the default's
+is "a change of the lower bound only" and is ignored - the default interval stays -/
+def fitterFp (fp : Settings) (defaults : Settings) : Settings :=
+  match fp "range_x", defaults "range_x" with
+  | some v, some d =>
+      if decide (v ≠ d) && truthy (fp "optimal_fit_edelta") && sameHi (some d) v then fp.set "range_x" d else fp
+  | _, _ => fp
 
 def insertKw (p : String × V) : List (String × V) → List (String × V)
   | [] => [p]
@@ -267,7 +281,7 @@ def fitModel (defaults : Settings) (s : St) (kw : List (String × V)) (optErr : 
       -- 5. fit unless the results are current
       if s4.res.isSome then (s4, .ok ())
       else
-        let fpFull := withDefaults s4.fp defaults
+        let fpFull := fitterFp (withDefaults s4.fp defaults) defaults
         match ctorCheck s4 fpFull with
         | .error e => (s4, .error e)
         | .ok _ =>
